@@ -29,6 +29,24 @@ class C01(ParserSessionProp):
         k['max_len'] = rng.choice([4, 6, 6, 8]) if tier == 'quick' else rng.choice([6, 8, 10])
         return k
 
+    def tweak_world(self, rng, wspec, knobs):
+        # with the beta filter off only pruning_size limits the tags: extremely improbable tags (log-probability
+        # far below anything exp() can represent in single precision) stay admitted and may carry the only derivation
+        if knobs['use_beta']:
+            return
+        from depsim import gen
+        for s in wspec['sentences']:
+            if rng.random() < 0.25:
+                tag = gen.hex_to_arr(s['tag'])
+                n, T = tag.shape
+                fav = s.get('favoured')
+                for i in range(n):
+                    if rng.random() < 0.5:
+                        t = fav[i] if (fav and rng.random() < 0.6) else rng.randrange(T)
+                        tag[i, t] = rng.choice([-150.0, -1000.0])
+                s['tag'] = gen.arr_to_hex(tag)
+                s['improbable_tags'] = True
+
     def check_call(self, world, op, rec, stats, spec):
         out = []
         if rec.exception is not None or rec.ub or rec.unraisable:
